@@ -1,5 +1,7 @@
 from vx.lift import Lift, Sub, Call, Members, Guard, DropStmt
+import os
 from vx.run import Unit
+CIQ_SPEC_FILE = os.path.join(os.environ.get('VX_SPEC_DIR', '/verif/specs/C17'), 'spec.py')
 from vx import census
 
 CIQ = "libs/pika/concurrency/include/pika/concurrency/detail/contiguous_index_queue.hpp"
@@ -132,6 +134,16 @@ META = {
     "assumptions": ["A-CLOSED: current_range is written only by reset/pop_left/pop_right/copy operations (census of the header)"],
     "not_decided": ["Michael's lock-free deque (deque.hpp) and moodycamel ConcurrentQueue: unverified dependencies"],
 }
+
+# ---- Michael's lock-free deque (written by a sub-agent after seeded change C17-2 was missed) ----------------------
+exec(open(os.path.join(os.path.dirname(os.path.abspath(CIQ_SPEC_FILE)), "deque_spec.py")).read())
+for _u in DEQUE_UNITS:
+    # the sequential bounded stand-ins that start with a pop (on an empty deque) run in the thorough tier only
+    if _u.kind == "bounded" and ".pop_" in _u.name.split("b4.")[-1].split(".")[0]:
+        _u.tier = "thorough"
+UNITS += DEQUE_UNITS
+for _k in ("trusted_base", "assumptions", "not_decided"):
+    META[_k] = [x for x in META.get(_k, []) if "Michael" not in x] + DEQUE_META.get(_k, [])
 
 STATIC = [
     # A-CLOSED: the atomic word current_range is accessed only in reset / the copy operations / pop_left / pop_right / empty
